@@ -1006,10 +1006,19 @@ var allOpts = []options{{true, true}, {false, true}, {true, false}, {false, fals
 func families(tier string) []fw.Family {
 	full := alphabet()
 	var fs []fw.Family
-	for d := 0; d <= 3; d++ {
+	for d := 0; d <= 2; d++ {
 		fs = append(fs, family(fmt.Sprintf("histories of length %d over %d calls x 4 option sets", d, len(full)), full, d, allOpts))
 	}
+	if tier != "thorough" {
+		// quick: length 3 over the full alphabet with subsetted fonts, over the reduced alphabet with full fonts
+		red := reducedAlphabet(full)
+		fs = append(fs,
+			family(fmt.Sprintf("histories of length 3 over %d calls, SubsetFonts=true x Compress on/off", len(full)), full, 3, allOpts[:2]),
+			family(fmt.Sprintf("histories of length 3 over the reduced alphabet of %d calls, SubsetFonts=false x Compress on/off", len(red)), red, 3, allOpts[2:]),
+		)
+	}
 	if tier == "thorough" {
+		fs = append(fs, family(fmt.Sprintf("histories of length 3 over %d calls x 4 option sets", len(full)), full, 3, allOpts))
 		fs = append(fs,
 			family(fmt.Sprintf("histories of length 4 over %d calls, SubsetFonts=true x Compress on/off", len(full)), full, 4, allOpts[:2]),
 		)
@@ -1031,7 +1040,7 @@ func Prop() *fw.Property {
 			"x {Compress} x {SubsetFonts}, each on a fresh pdf.New writer and closed; the bytes are parsed by an independent reader and checked clause by clause; " +
 			"state = distinct document (SHA-1 of the bytes with CreationDate blanked), transition = one API call, validated trace = one document checked; distinct_nontrivial = globally distinct documents (states is summed per worker)",
 		Assumptions: []string{
-			"depth bound: histories of at most 3 calls (quick) / 4 calls (thorough; at depth 4 the SubsetFonts=false half uses a reduced 13-call alphabet because each such document costs ~40 ms); longer documents are outside the bound",
+			"depth bound: histories of at most 3 calls (quick; at depth 3 the SubsetFonts=false half uses the reduced alphabet) / 4 calls (thorough; at depth 4 the SubsetFonts=false half uses a reduced 13-call alphabet because each such document costs ~40 ms); longer documents are outside the bound",
 			"trusted base: internal/pdfread (ISO 32000-1 tokenizer, xref, filters, Table 51, Figure 9), compress/zlib, image/jpeg",
 			"fonts: DejaVuSerif.ttf and EBGaramond12-Regular.otf, loaded afresh for every document (the writer mutates font objects while subsetting); the 14 standard fonts, vertical text, rich text with several faces and canvas-embedded objects are outside the alphabet",
 			"metadata values outside PDFDocEncoding's printable range other than CR/LF (e.g. 0x18-0x1F, 0x7F) are outside the menu",
